@@ -283,7 +283,7 @@ def check(prop):
     vlib.build_harness(["concdrv"], race=True)
     d = vlib.scratch("conc-")
     gen = {"StoreU.tla": storeu.storeu_tla(u, len(u["triples"]), NAMES)}
-    nsmall, nstress, nhammer = (700, 6, 4) if tier == "quick" else (12000, 60, 40)
+    nsmall, nstress, nhammer, nbatch = (700, 6, 4, 80) if tier == "quick" else (12000, 60, 40, 1500)
 
     with cf.ThreadPoolExecutor(max_workers=4) as ex:
         f_mc = ex.submit(model_check, u, tier)
@@ -291,13 +291,15 @@ def check(prop):
         f_targ = ex.submit(drive, "targeted", d, [])
         f_stress = ex.submit(drive, "stress", d, ["-runs", str(nstress)])
         f_hammer = ex.submit(drive, "hammer", d, ["-runs", str(nhammer)])
+        f_batch = ex.submit(drive, "batch", d, ["-runs", str(nbatch)])
         tr_small, st_small, races_small = f_small.result()
         tr_targ, st_targ, races_targ = f_targ.result()
         tr_stress, st_stress, races_stress = f_stress.result()
         tr_hammer, st_hammer, races_hammer = f_hammer.result()
+        tr_batch, st_batch, races_batch = f_batch.result()
         # races: one history of Race events
         tr_race = os.path.join(d, "races.ndjson")
-        races = races_small + races_targ + races_stress + races_hammer
+        races = races_small + races_targ + races_stress + races_hammer + races_batch
         nraces = race_events(races, 1, tr_race)
         # linearisation search (strict Layer A) over the small and the targeted histories; monitor over stress + races
         f_ls = ex.submit(lin_check, gen, tr_small)
@@ -305,8 +307,9 @@ def check(prop):
         f_lx = ex.submit(lin_check, gen, tr_stress, "ConcTrace.cfg", 1)
         f_lr = ex.submit(lin_check, gen, tr_race, "ConcTrace.cfg", 1)
         f_lh = ex.submit(lin_check, gen, tr_hammer, "ConcTrace.cfg", 1)
+        f_lb = ex.submit(lin_check, gen, tr_batch, "ConcTrace.cfg", 1)
         parts = {"small": (tr_small, f_ls.result()), "targeted": (tr_targ, f_lt.result()), "stress": (tr_stress, f_lx.result()),
-                 "hammer": (tr_hammer, f_lh.result()), "races": (tr_race, f_lr.result())}
+                 "hammer": (tr_hammer, f_lh.result()), "batch": (tr_batch, f_lb.result()), "races": (tr_race, f_lr.result())}
         mc, mstates, mtrans = f_mc.result()
 
     # classification of the rejected histories: does the named Layer B deviation (shared options cell) explain them?
@@ -336,6 +339,9 @@ def check(prop):
         for ln, (cls, ev) in sorted(bad.items()):
             nrej += 1
             w = {k: ev[k] for k in ("ev", "run", "p", "f1", "f2", "pk1", "pk2", "s1", "s2", "shared", "info")}
+            if ev["ev"] == "BatchObs":
+                w = {"ev": "BatchObs", "run": ev["run"], "reader": ev["p"], "observes": ev["op"], "batch_size": ev["t"],
+                     "legal_values": ev["b"], "observed_in_order": ev["res"][:40]}
             if ev["ev"] == "OptionsChanged":
                 w["q"] = {k: x for k, x in ev["q"].items() if x not in (0, "", False)}
             v.reject(cls, w, {"event": ev, "part": name, "trace_line": ln})
@@ -352,7 +358,7 @@ def check(prop):
     cov = v.cov
     cov.update({
         "states": mstates + tstates, "transitions": mtrans + ttrans,
-        "traces_validated_against_impl": st_small.get("runs", 0) + st_targ.get("runs", 0) + st_stress.get("runs", 0) + st_hammer.get("runs", 0),
+        "traces_validated_against_impl": st_small.get("runs", 0) + st_targ.get("runs", 0) + st_stress.get("runs", 0) + st_hammer.get("runs", 0) + st_batch.get("runs", 0),
         "hammer_runs": st_hammer.get("runs", 0), "hammer_lookups": st_hammer.get("hammer_lookups", 0),
         "hammer_spurious_errors": st_hammer.get("hammer_spurious_errors", 0), "hammer_other_answers": st_hammer.get("hammer_other_answers", 0),
         "model": "ConcStore.tla: 2 processes x <=2 operations and 3 processes x 1 operation over 3 triples / 2 graph names",
@@ -362,6 +368,8 @@ def check(prop):
         "targeted_spurious_errors": st_targ.get("t2_spurious_error", 0), "targeted_methods_skipped": st_targ.get("targeted_methods_skipped", 0),
         "stress_runs": st_stress.get("runs", 0), "stress_ops": st_stress.get("stress_ops", 0), "stress_lookups": st_stress.get("stress_lookups", 0),
         "stress_bql_statements": st_stress.get("stress_bql", 0), "stress_goroutines": st_stress.get("stress_goroutines", 0),
+        "batch_runs": st_batch.get("runs", 0), "batch_max_size": st_batch.get("batch_max", 0), "batch_triples_added": st_batch.get("batch_triples", 0),
+        "batch_observations": st_batch.get("batch_observations", 0), "batch_readers_overlapping_the_add": st_batch.get("batch_readers_overlapping_the_add", 0),
         "race_reports": nraces, "histories_rejected": sum(len(p[1][0]) for p in parts.values()),
         "events_validated": tevents, "rejected_cases": nrej, "negative_control_run": neg_run,
         "watchdog_fired": st_small.get("watchdog_fired", 0), "timeouts": st_small.get("timeouts", 0) + st_stress.get("timeouts", 0),
